@@ -16,7 +16,7 @@ pub fn any_scalar_node() -> Node {
 const M_INT: u32 = 4; const M_NEG: u32 = 8; const M_FLOAT: u32 = 16;
 
 /// the executable form of the trait contract for a leaf: exactly one report, at the location given, nothing else
-pub fn one_report_at(e: &Rec, p: &Path) -> bool { e.n == 1 && rec::calls() == 1 && e.same(&rec::global()) && e.ev[0].path == *p && e.ev[0].is_report() }
+pub fn one_report_at(e: &Rec, p: &Path) -> bool { e.n == 1 && rec::calls() == 1 && e.same(&rec::global()) && e.ev[0].path() == *p && e.ev[0].is_report() }
 
 /// `ood` = some admissible-kind payload lies outside the target's domain (false for u64/u128/usize/i128, whose
 /// domain contains every u64 / i64 payload)
@@ -46,11 +46,11 @@ macro_rules! int_harness {
                     oblige!(one_report_at(&e, &p), "C01,C04:exactly_one_report_at_the_given_location");
                     let ev = e.ev[0];
                     if !kind_ok {
-                        oblige!(ev.kind == K_KIND, "C05:wrong_kind_gives_kind_error");
-                        oblige!((ev.a & 0xff) == mask && ev.b == mask.count_ones(), "C05:kind_error_lists_exactly_the_admissible_kinds");
-                        oblige!((ev.a >> 8) == kind_idx(kind_of(node)), "C04:actual_is_the_value_found");
+                        oblige!(ev.kind() == K_KIND, "C05:wrong_kind_gives_kind_error");
+                        oblige!((ev.a() & 0xff) == mask && ev.b() == mask.count_ones(), "C05:kind_error_lists_exactly_the_admissible_kinds");
+                        oblige!((ev.a() >> 8) == kind_idx(kind_of(node)), "C04:actual_is_the_value_found");
                     } else {
-                        oblige!(ev.kind == K_UNEXPECTED, "C05:domain_error_when_only_the_domain_is_wrong");
+                        oblige!(ev.kind() == K_UNEXPECTED, "C05:domain_error_when_only_the_domain_is_wrong");
                     }
                 }
             }
@@ -104,9 +104,9 @@ macro_rules! float_harness {
                     oblige!(want.is_none(), "C05:fails_only_when_inadmissible_or_out_of_domain");
                     oblige!(one_report_at(&e, &p), "C01,C04:exactly_one_report_at_the_given_location");
                     let ev = e.ev[0];
-                    oblige!(ev.kind == K_KIND, "C05:wrong_kind_gives_kind_error");
-                    oblige!((ev.a & 0xff) == (M_INT | M_NEG | M_FLOAT) && ev.b == 3, "C05:kind_error_lists_exactly_the_admissible_kinds");
-                    oblige!((ev.a >> 8) == kind_idx(kind_of(node)), "C04:actual_is_the_value_found");
+                    oblige!(ev.kind() == K_KIND, "C05:wrong_kind_gives_kind_error");
+                    oblige!((ev.a() & 0xff) == (M_INT | M_NEG | M_FLOAT) && ev.b() == 3, "C05:kind_error_lists_exactly_the_admissible_kinds");
+                    oblige!((ev.a() >> 8) == kind_idx(kind_of(node)), "C04:actual_is_the_value_found");
                 }
             }
         }
@@ -155,9 +155,9 @@ macro_rules! simple_harness {
                     oblige!(!acc(node), "C05:fails_only_when_inadmissible_or_out_of_domain");
                     oblige!(one_report_at(&e, &p), "C01,C04:exactly_one_report_at_the_given_location");
                     let ev = e.ev[0];
-                    oblige!(ev.kind == K_KIND, "C05:wrong_kind_gives_kind_error");
-                    oblige!((ev.a & 0xff) == $mask && ev.b == 1, "C05:kind_error_lists_exactly_the_admissible_kinds");
-                    oblige!((ev.a >> 8) == kind_idx(kind_of(node)), "C04:actual_is_the_value_found");
+                    oblige!(ev.kind() == K_KIND, "C05:wrong_kind_gives_kind_error");
+                    oblige!((ev.a() & 0xff) == $mask && ev.b() == 1, "C05:kind_error_lists_exactly_the_admissible_kinds");
+                    oblige!((ev.a() >> 8) == kind_idx(kind_of(node)), "C04:actual_is_the_value_found");
                 }
             }
         }
@@ -181,8 +181,8 @@ pub fn scalar_string_kinds() {
         Ok(_) => { oblige!(false, "C05:ok_only_when_admissible_and_in_domain"); }
         Err(e) => {
             oblige!(one_report_at(&e, &p), "C01,C04:exactly_one_report_at_the_given_location");
-            oblige!(e.ev[0].kind == K_KIND && (e.ev[0].a & 0xff) == 32 && e.ev[0].b == 1, "C05:kind_error_lists_exactly_the_admissible_kinds");
-            oblige!((e.ev[0].a >> 8) == kind_idx(kind_of(node)), "C04:actual_is_the_value_found");
+            oblige!(e.ev[0].kind() == K_KIND && (e.ev[0].a() & 0xff) == 32 && e.ev[0].b() == 1, "C05:kind_error_lists_exactly_the_admissible_kinds");
+            oblige!((e.ev[0].a() >> 8) == kind_idx(kind_of(node)), "C04:actual_is_the_value_found");
         }
     }
 }
@@ -194,8 +194,8 @@ fn char_kind_case(node: Node) {
         Ok(_) => { oblige!(false, "C05:ok_only_when_admissible_and_in_domain"); }
         Err(e) => {
             oblige!(one_report_at(&e, &p), "C01,C04:exactly_one_report_at_the_given_location");
-            oblige!(e.ev[0].kind == K_KIND && (e.ev[0].a & 0xff) == 32 && e.ev[0].b == 1, "C05:kind_error_lists_exactly_the_admissible_kinds");
-            oblige!((e.ev[0].a >> 8) == kind_idx(kind_of(node)), "C04:actual_is_the_value_found");
+            oblige!(e.ev[0].kind() == K_KIND && (e.ev[0].a() & 0xff) == 32 && e.ev[0].b() == 1, "C05:kind_error_lists_exactly_the_admissible_kinds");
+            oblige!((e.ev[0].a() >> 8) == kind_idx(kind_of(node)), "C04:actual_is_the_value_found");
         }
     }
 }
@@ -214,7 +214,7 @@ pub fn scalar_char_empty() {
         Ok(_) => { oblige!(false, "C05:ok_only_when_admissible_and_in_domain"); }
         Err(e) => {
             oblige!(one_report_at(&e, &p), "C01,C04:exactly_one_report_at_the_given_location");
-            oblige!(e.ev[0].kind == K_UNEXPECTED, "C05:domain_error_when_only_the_domain_is_wrong");
+            oblige!(e.ev[0].kind() == K_UNEXPECTED, "C05:domain_error_when_only_the_domain_is_wrong");
         }
     }
 }
